@@ -289,6 +289,28 @@ class Driver:
         elif kind in ('mp_add', 'mp_evict'):
             getattr(self, 'op_' + kind)({k: v for k, v in sub.items() if k != 'at'})
 
+    def op_daemon_outage(self, op):
+        """All daemon URLs (or one) are unreachable / warming up / refusing service for `dt` virtual seconds."""
+        w = self.w
+
+        def begin():
+            if getattr(w.daemon, 'frozen', False):
+                return
+            urls = list(w.urls) if op.get('which', 'all') == 'all' else [w.urls[op['which'] % len(w.urls)]]
+            for u in urls:
+                w.faults.per_url[u] = op['state']
+            self.probe('outage.' + op['state'])
+            w.sim.stats['dfault.outage'] += 1
+
+            def end():
+                for u in urls:
+                    w.faults.per_url.pop(u, None)
+            self._bg(op['dt'], end)
+        if op.get('at'):
+            self._bg(op['at'], begin)
+        else:
+            begin()
+
     def op_slow(self, op):
         self.w.dnet.slow.append([op['method'], op['delay']])
 
@@ -300,6 +322,7 @@ class Driver:
         self.disarm()
         w.faults.enabled = False
         w.faults.script = []
+        w.faults.per_url.clear()     # outages end
         w.sim.stall_p = 0.0          # a stalled disk is a fault too
         w.sim.stall_boost = None
         end = w.sim.now + limit
